@@ -32,6 +32,7 @@ ChunkLen(c) == CLen(c, 1)
 RECURSIVE QLen(_, _)
 QLen(q, i) == IF i > Len(q) THEN 0 ELSE ChunkLen(q[i]) + QLen(q, i + 1)
 QWrite(q, tag, n) == IF q = <<>> THEN <<SegAppend(<<>>, tag, n)>> ELSE [q EXCEPT ![Len(q)] = SegAppend(@, tag, n)]
+QWriteFront(q, tag, n) == IF q = <<>> THEN <<SegAppend(<<>>, tag, n)>> ELSE [q EXCEPT ![1] = SegAppend(@, tag, n)]
 QFlush(q) == IF q # <<>> /\ ChunkLen(q[1]) > 0 THEN Append(q, <<>>) ELSE q
 \* take k bytes from the front of chunk c: <<taken segments, rest>>
 RECURSIVE Take(_, _)
@@ -83,23 +84,25 @@ Apply(st, e, seq) ==
   CASE e.ev = "app_write" -> [st EXCEPT !.paynext = <<e.v, e.n>>]
     [] e.ev = "queue_write" ->
          LET pn == IF st.paynext[2] < e.n THEN st.paynext[2] ELSE e.n IN
-         IF st.expectW /\ e.n # 10 THEN Fail(st, "a size request was due (window-size signal, or frames dropped with a request outstanding) but something else was queued") ELSE
+         IF st.expectW /\ e.n # 10 THEN Fail(st, "a size request was due after a window-size signal but something else was queued") ELSE
          [st EXCEPT !.expectW = FALSE, !.wq = QWrite(QWrite(@, st.paynext[1], pn), 0, e.n - pn), !.written = @ + e.n,
                     !.paynext = <<st.paynext[1], st.paynext[2] - pn>>]
+    \* escape-sequence size mode: the size request goes behind the chunk at the front of the queue (the one frames_drop
+    \* keeps), not behind everything that is queued - see SizeMode.tla
+    [] e.ev = "queue_write_front" ->
+         IF ~st.expectW \/ e.n # 10 THEN Fail(st, "write to the front chunk that is not the size request after a window-size signal")
+         ELSE [st EXCEPT !.expectW = FALSE, !.wq = QWriteFront(@, 0, e.n), !.written = @ + e.n]
     [] e.ev = "queue_flush" -> [st EXCEPT !.wq = QFlush(@)]
     [] e.ev = "frames_drop" ->
-         IF e.before # Len(st.wq) THEN Fail(st, "frames_drop: chunk count before differs from model")
+         \* only the program (between polls) and the release path drop frames: poll itself never discards output
+         IF st.inpoll /\ ~st.disposed THEN Fail(st, "frames_drop: output was discarded inside poll although the program did not ask for it")
+         ELSE IF e.before # Len(st.wq) THEN Fail(st, "frames_drop: chunk count before differs from model")
          ELSE LET q == IF Len(st.wq) > 1 THEN <<st.wq[1]>> ELSE st.wq IN
               IF e.after # Len(q) THEN Fail(st, "frames_drop: dropped something else than the whole chunks behind the front one")
               ELSE IF e.len # QLen(q, 1) THEN Fail(st, "frames_drop: reported length differs from readable bytes")
-              \* escape-sequence size mode: a size request that is still unanswered may have been in a dropped chunk,
-              \* the library asks again (otherwise the window change would never be reported)
-              ELSE [st EXCEPT !.wq = q, !.dropped = @ + (QLen(st.wq, 1) - QLen(q, 1)),
-                              !.expectW = (st.esc /\ st.sizeOut > 0 /\ Len(q) < Len(st.wq)),
-                              !.sizeOut = IF st.esc /\ st.sizeOut > 0 /\ Len(q) < Len(st.wq) THEN 1 ELSE @]
+              ELSE [st EXCEPT !.wq = q, !.dropped = @ + (QLen(st.wq, 1) - QLen(q, 1))]
     [] e.ev = "poll_enter" ->
-         IF st.expectW THEN Fail(st, "frames were dropped with a size request outstanding and the request was not queued again")
-         ELSE IF Len(st.wq) # e.chunks THEN Fail(st, "poll_enter: chunk count differs from model")
+         IF Len(st.wq) # e.chunks THEN Fail(st, "poll_enter: chunk count differs from model")
          ELSE IF Len(st.evq) # e.evq THEN Fail(st, "poll_enter: event queue length differs from model")
          ELSE [st EXCEPT !.inpoll = TRUE, !.wendMark = st.wend]
     [] e.ev = "select" ->
@@ -124,7 +127,8 @@ Apply(st, e, seq) ==
     [] e.ev = "signal" ->
          IF ~st.sel.s THEN Fail(st, "signal processed without the signal pipe being readable")
          \* escape-sequence size mode: the signal makes the library ask the terminal (10 bytes: CSI 18 t CSI 14 t);
-         \* the Resize event follows the terminal's answer
+         \* the Resize event follows the terminal's answer.  sizeOut counts the requests that are queued or with the
+         \* terminal: a dropped chunk must never reduce it (checked at `quiet` through the answers)
          ELSE IF e.sig = 28 /\ st.esc THEN [st EXCEPT !.sizeOut = @ + 1, !.expectW = TRUE, !.lastWinchSeen = seq]
          ELSE IF e.sig = 28 THEN [st EXCEPT !.evq = Append(@, [k |-> "resize", id |-> 0]), !.lastWinchSeen = seq]
          ELSE IF e.sig \in {15, 2, 3} THEN [st EXCEPT !.termsig = TRUE]
@@ -180,6 +184,7 @@ Apply(st, e, seq) ==
          ELSE IF st.evq # <<>> THEN Fail(st, "queued events were never delivered")
          ELSE IF st.lastWinchRaise >= 0 /\ st.lastWinchSeen < st.lastWinchRaise THEN Fail(st, "a window-size signal was never processed")
          \* escape-sequence size mode: the terminal was asked, and answered, after the last window-size signal was seen
+         ELSE IF st.esc /\ st.sizeOut # 0 THEN Fail(st, "a size request issued after a window-size signal was never answered: it did not reach the terminal")
          ELSE IF st.esc /\ st.lastWinchSeen >= 0 /\ st.lastSizeAns < st.lastWinchSeen THEN Fail(st, "no size report followed the last window-size signal: the size request never reached the terminal")
          ELSE IF st.pin # <<>> THEN Fail(st, "input bytes were never read")
          ELSE st
